@@ -175,10 +175,17 @@ impl<'a> LongChain<'a> {
     }
 
     /// Keep the first `len` bytes and drop the rest.
+    ///
+    /// If `len` is greater than or equal to the current length, this has no effect
+    /// (same as [`bytes::Bytes::truncate`]).
     #[inline]
     pub fn truncate(&mut self, len: usize) {
         #[cfg(debug_assertions)]
         self.verify_invariants();
+        if len >= self.total_remaining_len {
+            // Nothing to drop; in particular the cached length must not grow
+            return;
+        }
         let mut remaining = len;
         let mut truncate_index = 0;
         while truncate_index < self.data.len() {
